@@ -8,25 +8,34 @@ MODULE_OF.update(C25="text", C39="defval")
 HARNESS_PKGS.update(C25=("text",), C39=("text",))
 
 
-def _drift(res, binary, module, tour_path, label):
-    """Predicted-but-not-demanded behaviour (DESIGN 3.2): count tour cases whose out.drift is non-empty.
-    Spec drift is reported in the evidence and never affects the verdict."""
-    outp = tour_path + ".drift"
-    vlib.harness(binary, ["exec", module, tour_path, outp])
+def _replay(res, binary, module, tour_path, key, label):
+    """S->C tour replay (same bookkeeping as vlib.replay_tour) that also counts *predicted-but-not-demanded*
+    behaviour (DESIGN 3.2): a case whose out.drift is non-empty differs from what the specification predicts
+    although everything the property demands holds.  Drift is reported in the evidence, never in the verdict."""
+    outp = tour_path + ".out"
+    r = vlib.harness(binary, ["exec", module, tour_path, outp], timeout=3600)
+    vlib.log("replayed %s tour %s: %s" % (module, label, r.stdout.strip().splitlines()[-1]))
     n = d = 0
     sample = None
     for ev in vlib.read_ndjson(outp):
         n += 1
-        if (ev.get("out") or {}).get("drift"):
+        res.distinct.add(json.dumps(key(ev), sort_keys=True))
+        if n % 997 == 1:
+            res.sample(json.dumps({x: ev[x] for x in ev if x != "out"}, sort_keys=True)[:1200])
+        if ev.get("diff"):
+            res.fail(dict(ev, _module=module), "tour: real code disagrees with the specification on %s" % ev["diff"])
+        elif (ev.get("out") or {}).get("drift"):
             d += 1
             if sample is None:
-                sample = {k: v for k, v in ev.items() if k not in ("exp",)}
+                sample = {k: v for k, v in ev.items() if k != "exp"}
+    res.tour_cases += n
+    res.evaluations += n
+    res.traces += n
     os.remove(outp)
     res.extra.setdefault("drift", {})[label] = dict(cases=n, predicted_misses=d)
     if d:
         res.notes.append("spec drift (%s): %d of %d cases differ from the *predicted* behaviour although everything the "
                          "property demands holds; first: %s" % (label, d, n, json.dumps(sample)[:600]))
-    return d
 
 
 # ============================================================================ C25
@@ -85,9 +94,8 @@ def c25(res, tier, seed):
         res.add_tlc(r, label)
     res.exhaustive = True
     for t, (m, _, _) in zip(tours, runs):
-        replay_tour(res, b, "text", t, key=_k25)
-        _drift(res, b, "text", t, m)
-    n = 4000 if q else 150000
+        _replay(res, b, "text", t, _k25, m)
+    n = 3000 if q else 60000
     drive_and_validate(res, b, "text", "Trace_Text", seed, n, key=_k25)
     res.rule = ("tour: (1) every byte string over a 64-token UTF-8/escape corner alphabet up to the bound and all single bytes, "
                 "each with six specification-chosen literals, through the real encoder (EmitASCII off/on), the real decoder, "
@@ -182,7 +190,7 @@ def c39(res, tier, seed):
                 res.fail(dict(events[i], _module="defval", _trace="Trace_DefVal"),
                          "sweep candidate: specification rejects the recorded event")
             res.trace_events += total
-    n = 4000 if q else 150000
+    n = 3000 if q else 60000
     drive_and_validate(res, b, "defval", "Trace_DefVal", seed, n, key=_k39)
     res.rule = ("tour: TLC enumerates the value space per kind (all 15 integer kinds, bool, enum shapes, string, bytes, float, double) "
                 "x both formats with the text the specification writes; the real Marshal/Unmarshal, the real Unmarshal of the "
